@@ -171,6 +171,8 @@ std::string classify_crash(const std::string &err, int status)
 			return "crash:signal" + std::to_string(WTERMSIG(status));
 		return "crash:exit" + std::to_string(WIFEXITED(status) ? WEXITSTATUS(status) : -1);
 	}
+	if (kind == "asan-stack-overflow")
+		func = "-"; // the frame in which the guard page is hit depends on the initial stack depth
 	return "crash:" + kind + "@" + (func.empty() ? "?" : func);
 }
 
@@ -196,6 +198,9 @@ static IsoResult parse_iso(const std::string &out, const std::string &err, int s
 	r.crashed = true;
 	Violation v;
 	v.cls = classify_crash(err, status);
+	// crashes of stress shapes carry the shape name, so that a listed crash of one shape cannot mask another
+	if (plan.contains("params") && plan["params"].is_object() && plan["params"].contains("shape") && plan["params"]["shape"].is_string())
+		v.cls += ":" + plan["params"]["shape"].get<std::string>();
 	// keep the tail of the report as detail
 	v.detail = err.size() > 3000 ? err.substr(0, 3000) : err;
 	v.plan = nullptr;
